@@ -729,6 +729,24 @@ func genCL(cfg *config, r *rng, i int, s *sink) string {
 		for k := 0; k < 1+r.intn(6); k++ {
 			pts = append(pts, fmt.Sprintf("%.7f,%.7f", 50.85+float64(r.intn(50))*0.00001, -0.75-float64(r.intn(50))*0.00001))
 		}
+		// readings at (and a few centimetres from) every start point the flags or the config name:
+		// with an effective tolerance of 0 none of them may be reported
+		for _, src := range []string{f, c} {
+			var la, lo string
+			for _, kv := range clParseKVs(src) {
+				if strings.HasSuffix(kv.key, "latitude") {
+					la = unhexStr(kv.val)
+				}
+				if strings.HasSuffix(kv.key, "longitude") {
+					lo = unhexStr(kv.val)
+				}
+			}
+			if la != "" && lo != "" {
+				laf, _ := strconv.ParseFloat(la, 64)
+				lof, _ := strconv.ParseFloat(lo, 64)
+				pts = append(pts, fmt.Sprintf("%.7f,%.7f", laf, lof), fmt.Sprintf("%.7f,%.7f", laf+0.0000004, lof))
+			}
+		}
 		in = hexStr(strings.Join(pts, ";"))
 	}
 	return fmt.Sprintf("cl cmd=%s which=%s F=%s C=%s H=%s io=%s in=%s", cmd, which, f, c, h, io, in)
